@@ -292,6 +292,7 @@ class Ctx:
         self.t0 = time.time()
         self.thorough = tier == "thorough"
         self.violations: List[Violation] = []
+        self._vkeys: set = set()
         self.corr_broken: List[Dict[str, Any]] = []  # model/impl disagreements (not yet judged)
         self.evaluations = 0
         self.traces = 0
@@ -335,9 +336,12 @@ class Ctx:
         self.count("disagreements")
 
     def violate(self, key: str, what: str, replay: Any):
-        if len(self.violations) < 50:
+        # one entry per stable key (the cap must not hide other keys behind many hits of one)
+        if key not in self._vkeys and len(self.violations) < 200:
+            self._vkeys.add(key)
             self.violations.append(Violation(key, what, replay))
         self.count("oracle_failures")
+        self.count("oracle_failure:" + key)
 
 
 def write_replay(ctx: Ctx, name: str, payload: Dict[str, Any]) -> Path:
